@@ -128,6 +128,7 @@ func checkC01(w *World, r *Report) {
 
 	checkR01_3(w, r, pools)
 	checkR01_4(w, r)
+	checkUseAfterRelease(w, r)
 }
 
 // ---------------------------------------------------------------- R01.3
